@@ -11,6 +11,11 @@ import json, os
 FILES = ["Base/Prelude.v", "Gen/GenesisCoverage.v", "Model/Genesis.v", "Model/C12Check.v", "Proofs/Genesis.v"]
 
 
+def GEN_TABLE():
+    import vlib
+    return os.path.join(vlib.COQ, "Gen", "GenesisCoverage.v")
+
+
 def observe(R, n, seed=None):
     env = {"VERIF_SEED": str(seed)} if seed is not None else None
     out = R.harness("c12", ["-n", n], env=env, outdir=os.path.join(R.work, "c12_%s" % (seed if seed is not None else "main")))
@@ -73,6 +78,8 @@ def run(R):
                  "restart schedules: besides the same-time restart every history is also re-imported under one (history 0 and the thorough tier: all) of later-7s, later-35d (beyond every pending deadline of the populated states), higher-1000 (InitialHeight + 1000) and both; a freshly replayed original chain and the re-imported chain then get the same further blocks at the same later times; balances are not compared under a height shift (block rewards depend on the height through the validator-performance window)",
                  "metamorphic import obligation: every exported genesis is also imported with the entries of every top-level record list of every module reversed (even histories) / shuffled (odd; history 0 and thorough: both); the raw stores must equal those of the unpermuted import and the same probes must answer alike. Kept in order: customstaking.validators (order of the validator updates handed to consensus), bank.supply (sdk.Coins must be sorted), genutil.gen_txs (applied in list order); arrays of scalars and arrays nested inside records (coins, permission lists, token lists) are values, not record lists",
                  "window parameters: every history draws the parameters that govern how long something is kept (distributor SnapPeriod 1..5 instead of 1000 in 60% of the histories and in history 0, poll duration 10 s, basket LimitsPeriod 8 s, AutocompoundIntervalNumBlocks 1..3, MaxMischance 2..4, proposal end / enactment times 120/60 s, one 700000 s block so that the unstaking period elapses) so that each time/height-windowed store class is in its steady state (full window, entries being pruned) at export; the first block after the restart is probed (validator vote counts, fees treasury, balances)",
+                 "awkward export moments covered by the histories: proposals in voting / in enactment / finished, poll active or expired, undelegation pending or matured, validators paused / inactive (by keeper and by real downtime) / jailed (keeper and double-sign evidence) / just joined, custody transfer pooled with one of two approvals, dApp bootstrapping, collective bonded, software upgrade pending / being executed (validators paused, plan still next) / executed (current plan), address rotation in the last block; restarts exactly at and 1 ns after the next proposal deadline",
+                 "continuation after the restart (same signed transactions on both chains): bank send, create role, undelegate, new staking pool, claim rewards, claim spending pool, register identity record, basket mint, custody approval, collective contribution, dApp bond, poll creation, then blocks across all deadlines and claims of matured undelegations",
                  "auth / bank / params / consensus (SDK modules) are compared raw, not modelled"]
     R.gen("gen_genesis", "GenesisCoverage.v")
     R.coq_files(FILES)
@@ -90,6 +97,17 @@ def run(R):
                  not mism, "first mismatching histories: " + json.dumps([slim(cases[i], "mismatch") for i in mism[:3]])[:3000])
         record(R, viol, cases, seen)
         dist = json.load(open(os.path.join(out, "dist.json")))
+        # richness: every store class that InitGenesis writes (covered or derived) must be non-empty at export in
+        # some history of the run, otherwise its round trip is unchecked
+        import re
+        table = re.findall(r'mkCls "([^"]+)" "([^"]+)" "([^"]+)" "[^"]*" (true|false) (true|false) (true|false)',
+                           open(GEN_TABLE()).read())
+        per_class = {"%s/%s" % (st, n): dist.get("class:%s/%s" % (st, n), 0) for _, st, n, e, i, u in table}
+        unchecked = sorted("%s/%s" % (st, n) for _, st, n, e, i, u in table if i == "true" and per_class["%s/%s" % (st, n)] == 0)
+        R.oblige("richness: each of the %d store classes InitGenesis writes is populated at export in some history (never populated: only the %d classes the tree does not import)" %
+                 (sum(1 for t in table if t[4] == "true"), sum(1 for t in table if t[4] == "false" and per_class["%s/%s" % (t[1], t[2])] == 0)),
+                 not unchecked, "imported but never populated: %s" % unchecked)
+        R.coverage["store_classes_populated_in_n_histories"] = per_class
         R.samples = [slim(cases[0], "sample"), slim(cases[len(cases) // 2], "sample")]
         R.coverage.update({"traces_validated_against_impl": total,
                            "input_distribution": {k: v for k, v in dist.items() if k.startswith("step:")},
